@@ -78,6 +78,15 @@ def pySignedAsIs (length : Nat) (word : Nat) : Int :=
 
 theorem C01_signed_min_counterexample : pySignedAsIs 8 (toTwos 8 (-128)) = 128 := by decide
 
+/-- the open finding `negative-enumerator`: an enum field is packed as an *unsigned* field of the
+bit length of the largest enumerator (`_encode_enum` = `push_word(value, packed_size)`).  For
+`enum E { A = -1, B = 3 }` that is 2 bits: the enumerator −1 is written as its low two bits and
+read back as 3, another enumerator.  The schema is accepted, the value is in range, and
+`decode (encode v) ≠ v`; `wf` excludes exactly this (an enum value lies in `0 .. 2^bits − 1`) -/
+theorem C01_negative_enumerator_counterexample :
+    bitsNat (natBits 2 (toTwos 2 (-1))) = 3 ∧ ((3 : Nat) : Int) ≠ -1 ∧
+      wf (.field "e" 0 (.enum 2) .unit) (.cons (.int (-1)) .nil) = false := by decide
+
 /-- … and it is the only value on which the shipped decoder differs from the model -/
 theorem C01_asis_differs_only_at_min (n : Nat) (w : Nat) (h : 2 * w ≠ 2 ^ n) :
     pySignedAsIs n w = pySigned n w := by
